@@ -211,6 +211,8 @@ pub fn run(opts: &Opts) {
         backend::<V4Na, Rc>(opts, &mut rep);
         siblings::<V3, V3Lc>(opts, &mut rep);
         siblings::<V4, V4Na>(opts, &mut rep);
+        crate::monitors::third::ids::<V4>(opts, &mut rep);
+        crate::monitors::third::ids::<V4Na>(opts, &mut rep);
     }
     #[cfg(not(feature = "ffi"))]
     {
